@@ -9,6 +9,9 @@ func init() {
 	vHarnesses["H_C01_gen"] = H_C01_gen
 	vHarnesses["H_C03_cut"] = H_C03_cut
 	vHarnesses["H_C03_shape"] = H_C03_shape
+	vHarnesses["H_C04_gen"] = H_C04_gen
+	vHarnesses["H_C01_gen2"] = H_C01_gen2
+	vHarnesses["H_C03_gen2"] = H_C03_gen2
 	vHarnesses["H_C04_catch"] = H_C04_catch
 	vHarnesses["H_C09_history"] = H_C09_history
 	vHarnesses["H_C09_text"] = H_C09_text
@@ -44,6 +47,23 @@ func H_C01_sld(inst int) {
 func H_C01_gen(inst int) {
 	i := newFull()
 	engine.VH_C01_gen(&i.VM, inst)
+}
+
+// H_C01_gen2 / H_C03_gen2: every program of 1..3 clauses for p/1 from a clause menu (without / with cuts) x 7 queries.
+func H_C01_gen2(inst int) {
+	i := newFull()
+	engine.VH_gen2(&i.VM, inst, false)
+}
+
+func H_C03_gen2(inst int) {
+	i := newFull()
+	engine.VH_gen2(&i.VM, inst, true)
+}
+
+// H_C04_gen: two nested catch/3 with every combination of goal shape, ball, catcher and recovery (engine.VH_C04_gen).
+func H_C04_gen(inst int) {
+	i := newFull()
+	engine.VH_C04_gen(&i.VM, inst)
 }
 
 // H_C03_shape: generated family of conjunction shapes with a cut at every position (see engine.VH_C03_shape).
